@@ -7,7 +7,8 @@
        [decode_csv] is a strict RFC-4180 reader (LF or CRLF row ends) that keeps null <> empty string.
    (b) Python csv.writer (excel dialect, as used by save_scalars_duckdb): a field is quoted iff it contains , DQUOTE CR or LF; the
        empty string is written unquoted; rows end in CRLF; rows are sorted by name; None is written as the empty string.
-   (c) ASTString._handle_literal (render_literal) and the grammar's constant syntax (parse_literal).
+   (c) ASTString._handle_literal (render_literal; the float branch before /repo commit 70d45d5 is kept as
+       render_float_before_fix) and the grammar's constant syntax (parse_literal).
    (d) ASTString._format_reserved_word and the IDENTIFIER token.
    (e) ast_to_sdmx / pysdmx generate_vtl_script as list transformations. *)
 From Coq Require Import Decimal DecimalZ String Ascii ZArith NArith Lia Bool List.
@@ -331,36 +332,50 @@ Definition rstrip0 (s : bytes) : bytes := strip_tz s.          (* str.rstrip of 
 
 Definition has_dq (s : bytes) : bool := existsb (Ascii.eqb c_dq) s.
 
-Section Render.
+Section RenderBeforeFix.
   (* oracle: for the float denoted by d, the sign of (binary value - d); irrelevant away from exact decimal ties *)
   Variable bias : decn -> comparison.
 
-  (* ASTString._handle_literal for a float: None = the IndexError raised by str(v).split(dot)[1] *)
-  Definition render_float (d : decn) : option bytes :=
+  (* ASTString._handle_literal for a float AS IT WAS BEFORE /repo commit 70d45d5 (kept for the *_before_fix witnesses):
+     decimal = str(v).split(dot)[1]; more than 4 characters -> format f, rstrip zeros; else format g.  None = IndexError *)
+  Definition render_float_before_fix (d : decn) : option bytes :=
     match after_dot (py_repr d) with
     | None => None
     | Some dp =>
         if (4 <? length dp)%nat then Some (rstrip0 (fmt_f (bias d) d)) else Some (fmt_g (bias d) d)
     end.
+End RenderBeforeFix.
 
-  (* ASTString.visit_Constant + _handle_literal *)
-  Definition render_literal (l : lit) : option bytes :=
-    match l with
-    | LNull => Some (B "null")
-    | LBool true => Some (B "true")
-    | LBool false => Some (B "false")
-    | LInt z => Some (render_Z z)
-    | LStr s => Some (if has_dq s then s else c_dq :: s ++ [c_dq])
-    | LNum d => render_float d
-    end.
-End Render.
+Definition has_e (s : bytes) : bool := existsb (fun c => Ascii.eqb c "e" || Ascii.eqb c "E") s.
+Definition has_dot (s : bytes) : bool := existsb (Ascii.eqb ".") s.
+(* format(Decimal(repr), 'f'): positional notation of the same digits *)
+Definition decimal_f (d : decn) : bytes :=
+  sign_of d ++ nz (dint d) ++ match dfrac d with [] => [] | f => "." :: f end.
+
+(* ASTString._handle_literal for a float, current code (faithful transcription):
+     text = repr(value); if it has an exponent: text = format(Decimal(text), 'f'); if it has no dot: text += '.0' *)
+Definition render_float_impl (d : decn) : bytes :=
+  let t := py_repr d in
+  let t' := if has_e t then decimal_f d else t in
+  if has_dot t' then t' else t' ++ B ".0".
+
+(* ASTString.visit_Constant + _handle_literal (current code) *)
+Definition render_literal (l : lit) : bytes :=
+  match l with
+  | LNull => B "null"
+  | LBool true => B "true"
+  | LBool false => B "false"
+  | LInt z => render_Z z
+  | LStr s => if has_dq s then s else c_dq :: s ++ [c_dq]
+  | LNum d => render_float_impl d
+  end.
 
 (* what the renderer should do for a float (spec): print the decimal itself *)
 Definition render_float_spec (d : decn) : bytes := sign_of d ++ nz (dint d) ++ "." :: nz (dfrac d).
-Definition render_literal_spec (l : lit) : option bytes :=
+Definition render_literal_spec (l : lit) : bytes :=
   match l with
-  | LNum d => Some (render_float_spec d)
-  | _ => render_literal (fun _ => Eq) l
+  | LNum d => render_float_spec d
+  | _ => render_literal l
   end.
 
 Fixpoint span_digits (s : bytes) : bytes * bytes :=
@@ -405,8 +420,7 @@ Definition parse_literal (s : bytes) : option lit :=
         else parse_number false s
     end.
 
-(* closed form of the sub-domain on which the faithful float renderer round-trips (proved sufficient in CodecP;
-   compared with the computed round trip on every generated literal by the harness) *)
+(* BEFORE THE FIX: closed form of the sub-domain on which the old float renderer round-tripped (proved sufficient in CodecP) *)
 Definition repr_fixed (d : decn) : bool := ((-4 <=? dec_exp d) && (dec_exp d <? 16))%Z.
 Definition float_roundtrip_domain (d : decn) : bool :=
   dec_canon d &&
@@ -420,11 +434,12 @@ Definition lit_eqb_num (a : option lit) (d : decn) : bool :=
   | Some (LNum e) => Bool.eqb (dneg e) (dneg d) && bytes_eqb (dint e) (dint d) && bytes_eqb (dfrac e) (dfrac d)
   | _ => false
   end.
-Definition float_roundtrips (bias : comparison) (d : decn) : bool :=
-  match render_float (fun _ => bias) d with
+Definition float_roundtrips_before_fix (bias : comparison) (d : decn) : bool :=
+  match render_float_before_fix (fun _ => bias) d with
   | Some s => lit_eqb_num (parse_literal s) d
   | None => false
   end.
+Definition float_roundtrips (d : decn) : bool := lit_eqb_num (parse_literal (render_float_impl d)) d.
 
 (* ------------------------------------------------------------------------------------------------------------------ *)
 (** * (d) reserved words and identifiers *)
